@@ -215,6 +215,23 @@ func main() {
 				}
 			}
 		}
+	case "lex":
+		if replay != "" {
+			var c lexCase
+			mustReadJSON(replay, &c)
+			c.Toks, c.Errs, c.Panic = nil, nil, ""
+			begin(&c)
+			runLexCase(&c)
+			emit(&c)
+			return
+		}
+		for i := lo; i < hi; i++ {
+			r := newRng(*seed*1000003 + uint64(i))
+			c := genLexCase(r, i)
+			begin(c)
+			runLexCase(c)
+			emit(c)
+		}
 	default:
 		fmt.Fprintf(os.Stderr, "unknown scenario %s\n", *scn)
 		os.Exit(2)
